@@ -36,13 +36,14 @@ ASSUMPTIONS = [
 ]
 OUTSIDE = "code points >= 256, encodings other than utf-8/latin-1/ascii, mixed newline conventions, body longer than L"
 BOUNDS = {
-    "quick": {"body_L": 5, "insert_L": 1, "edit_L": {"none": 2, "utf8": 3, "latin1": 4, "ascii": 4}},
-    "thorough": {"body_L": 6, "insert_L": 2, "edit_L": {"none": 3, "utf8": 4, "latin1": 5, "ascii": 5}},
+    "quick": {"body_L": 5, "insert_L": 1, "edit_L": {"none": 2, "utf8": 3, "latin1": 4, "ascii": 4, "latin1l2": 3, "latin1l2b": 3}},
+    "thorough": {"body_L": 6, "insert_L": 2, "edit_L": {"none": 3, "utf8": 4, "latin1": 5, "ascii": 5, "latin1l2": 4, "latin1l2b": 4}},
 }
 STUBS = ["fscommands: in-memory byte store", "fscommands.type/chr shadowed by proxy-aware versions"]
 
 ALPHA = [(97, 97), (35, 35), (0xE9, 0xE9), (32, 32), (61, 61), (10, 10)]
-HEADERS = {"none": (None, ""), "utf8": ("utf-8", "# -*- coding: utf-8 -*-\n"), "latin1": ("latin-1", "# coding: latin-1\n"), "ascii": ("ascii", "# coding=ascii\n")}
+HEADERS = {"none": (None, ""), "utf8": ("utf-8", "# -*- coding: utf-8 -*-\n"), "latin1": ("latin-1", "# coding: latin-1\n"), "ascii": ("ascii", "# coding=ascii\n"),
+           "latin1l2": ("latin-1", "#!/usr/bin/env python\n# vim: set fileencoding=latin-1 :\n"), "latin1l2b": ("latin-1", "\n# coding: latin-1\n")}
 NLS = {"lf": "\n", "crlf": "\r\n", "cr": "\r"}
 
 
